@@ -889,11 +889,17 @@ fn slice_member() -> ! {
 pub struct Tag(pub usize);
 impl Drop for Tag {
     fn drop(&mut self) {
+        let mut panicky = false;
         if let Some(s) = crate::sched::cur() {
             let mut g = s.lock();
             if self.0 < g.tag_drops.len() {
                 g.tag_drops[self.0] += 1;
             }
+            panicky = g.tag_panicky.contains(&self.0);
+        }
+        // a user value whose destructor panics (never a second panic on top of an unwind)
+        if panicky && !std::thread::panicking() {
+            std::panic::resume_unwind(Box::new(crate::interp::Injected));
         }
     }
 }
